@@ -352,3 +352,71 @@ theorem assign_step (p : Params Nat) (pv : p.Valid) (t o : T) (ht : TreeInv p t)
   | mk a b c d => rw [hc] at h3 h4 h5 h6; simp only at h3 h4 h5 h6; simp [h3, h4, h5, h6]
 
 end TlxVerif.C01
+
+namespace TlxVerif.C01
+
+/-! ### copies as values: the copy of a tree satisfying the invariant *is* that tree (same structure,
+same bookkeeping); the ledger records the nodes allocated for it and freed from the overwritten one -/
+
+theorem stats_of_root_none (p : Params Nat) (t : T) (ht : TreeInv p t) (h : t.root = none) : t = {} := by
+  have := ht.1
+  unfold TreeShape at this
+  rw [h] at this
+  cases t with
+  | mk root stats => simp only at h this; subst h; subst this; rfl
+
+theorem stats_eq_recount' (p : Params Nat) (t : T) (ht : TreeInv p t) :
+    t.stats.leaves = t.nLeaves ∧ t.stats.inner = t.nInner ∧ t.stats.size = t.toList.length := by
+  obtain ⟨hs, _, _⟩ := ht
+  unfold TreeShape at hs
+  cases hroot : t.root with
+  | none => rw [hroot] at hs; simp [hs, Tree.nLeaves, Tree.nInner, Tree.toList, hroot]
+  | some r => rw [hroot] at hs; simp [hs.2.1, hs.2.2.1, hs.2.2.2, Tree.nLeaves, Tree.nInner, Tree.toList, hroot]
+
+theorem copy_eq (p : Params Nat) (pv : p.Valid) (o : T) (ho : TreeInv p o) :
+    (copyCtor o).1 = o ∧ (copyCtor o).2 = { leafAlloc := o.nLeaves, innerAlloc := o.nInner } := by
+  have hsz := size_pos_iff_root p pv o ho
+  have hst := stats_eq_recount' p o ho
+  cases hroot : o.root with
+  | none =>
+    have := stats_of_root_none p o ho hroot
+    subst this
+    simp [copyCtor, Tree.nLeaves, Tree.nInner]
+  | some r =>
+    have hpos := hsz.1.mpr (by rw [hroot]; simp)
+    cases o with
+    | mk root stats =>
+      simp only at hroot hpos hst
+      subst hroot
+      cases stats with
+      | mk size leaves inner =>
+        simp only at hpos hst
+        obtain ⟨s1, s2, _⟩ := hst
+        simp [copyCtor, hpos, ← s1, ← s2]
+
+theorem assign_eq (p p' : Params Nat) (pv : p.Valid) (t o : T) (ht : TreeInv p' t) (ho : TreeInv p o) :
+    (assign t o).1 = o ∧
+    (assign t o).2 = { leafAlloc := o.nLeaves, innerAlloc := o.nInner, leafFree := t.nLeaves, innerFree := t.nInner } := by
+  have hsz := size_pos_iff_root p pv o ho
+  have hcl : (clear t).1 = {} ∧ (clear t).2 = { leafFree := t.nLeaves, innerFree := t.nInner } := by
+    cases htr : t.root with
+    | none =>
+      have := stats_of_root_none p' t ht htr
+      subst this
+      simp [clear, Tree.nLeaves, Tree.nInner]
+    | some r => simp [clear, htr]
+  cases hroot : o.root with
+  | none =>
+    have := stats_of_root_none p o ho hroot
+    subst this
+    simp [assign, hcl, Tree.nLeaves, Tree.nInner]
+  | some r =>
+    have hpos := hsz.1.mpr (by rw [hroot]; simp)
+    cases o with
+    | mk root stats =>
+      simp only at hroot hpos
+      subst hroot
+      have hne : stats.size ≠ 0 := by omega
+      simp [assign, hcl, hne, Ledger.add]
+
+end TlxVerif.C01
